@@ -144,16 +144,26 @@ func (st *strategy) pick(s *Sim, cs []cand) int {
 		}
 		return ok[t.Draw(len(ok))]
 	case stLazyActors:
-		// actors (consumers) act only when no task can run
-		nt := n - countActors(cs)
-		if nt > 0 {
-			return t.Draw(nt)
+		// consumers (actors and consumer tasks) act only when nothing else can run
+		var others []int
+		for i, c := range cs {
+			if !c.consumer() {
+				others = append(others, i)
+			}
+		}
+		if len(others) > 0 {
+			return others[t.Draw(len(others))]
 		}
 		return t.Draw(n)
 	case stEagerActors:
-		na := countActors(cs)
-		if na > 0 && t.Draw(8) != 7 {
-			return n - na + t.Draw(na)
+		var cons []int
+		for i, c := range cs {
+			if c.consumer() {
+				cons = append(cons, i)
+			}
+		}
+		if len(cons) > 0 && t.Draw(8) != 7 {
+			return cons[t.Draw(len(cons))]
 		}
 		return t.Draw(n)
 	}
